@@ -50,6 +50,8 @@ FAM_RE = [
     ("P", re.compile(r"^(?:r_OJ|v_J|a_J|J_J|r_OC|v_C|a_C|J_C|r_OP|v_P|J_P)([12])")),
     ("R", re.compile(r"^(?:Omega|Psi|J_R)([12])")),
     ("R", re.compile(r"^J([12])_R")),
+    # joint / contact basis carried by body k: only its differentiated forms (A_IJ1_q1, ...) count in derivative routines
+    ("B", re.compile(r"^A_I[JK]([12])")),
 ]
 
 
@@ -205,8 +207,20 @@ def csign(e, defs=None, depth=0):
     """syntactic sign of a cofactor: -x, (-a) * b, ax2skew(-a), ... (linear wrappers keep the sign of their argument)."""
     if isinstance(e, ast.UnaryOp) and isinstance(e.op, ast.USub):
         return -csign(e.operand, defs, depth)
+    if isinstance(e, ast.BinOp) and isinstance(e.op, ast.MatMult):
+        # row vector times skew matrix: u @ ax2skew(x) = cross3(u, x); canonical argument order (see cross3 below)
+        r = e.right
+        if isinstance(r, ast.Call) and (dotted(r.func) or "").split(".")[-1] == "ax2skew" and len(r.args) == 1:
+            o = _cross_order(e.left, r.args[0])
+            if o is not None:
+                return csign(e.left, defs, depth) * csign(r.args[0], defs, depth) * o
     if isinstance(e, ast.BinOp) and isinstance(e.op, (ast.Mult, ast.MatMult, ast.Div)):
         return csign(e.left, defs, depth) * csign(e.right, defs, depth)
+    if isinstance(e, ast.Call) and (dotted(e.func) or "").split(".")[-1] in ("cross3", "cross") and len(e.args) == 2:
+        # the cross product is antisymmetric: cross3(a, b) = -cross3(b, a).  Both spellings get the sign of the spelling
+        # with the arguments in name order, so that a rewrite that swaps the arguments AND the written sign is neutral.
+        o = _cross_order(e.args[0], e.args[1])
+        return csign(e.args[0], defs, depth) * csign(e.args[1], defs, depth) * (o if o is not None else 1)
     if isinstance(e, ast.Call) and (dotted(e.func) or "").split(".")[-1] in ("ax2skew", "array", "asarray", "transpose") and len(e.args) == 1:
         return csign(e.args[0], defs, depth)
     if isinstance(e, ast.Attribute) and e.attr == "T":
@@ -218,6 +232,20 @@ def csign(e, defs=None, depth=0):
         if d and len(d) == 1 and d[0] is not None:
             return csign(d[0], defs, depth + 1)
     return 1
+
+
+def _cross_order(a, b):
+    """+1 / -1 when both arguments are plain names (after stripping signs and subscripts) and differ; None otherwise."""
+    def nm(x):
+        while isinstance(x, ast.UnaryOp) and isinstance(x.op, ast.USub):
+            x = x.operand
+        while isinstance(x, ast.Subscript):
+            x = x.value
+        return x.id if isinstance(x, ast.Name) else None
+    na, nb = nm(a), nm(b)
+    if na is None or nb is None or na == nb:
+        return None
+    return 1 if na < nb else -1
 
 
 def _strip_sign(e):
@@ -350,7 +378,7 @@ def relative_polarity(info, fn):
     return res, occ
 
 
-def check_polarity(rep, rule, ci, methods, rel=None):
+def check_polarity(rep, rule, ci, methods, rel=None, families=("P", "R")):
     """all methods of one derivative family in which the body-2 : body-1 sign ratio is syntactically determinate agree."""
     rel = rel or ci.rel
     seen = {}
@@ -361,7 +389,7 @@ def check_polarity(rep, rule, ci, methods, rel=None):
         info = FnInfo(fn)
         res, occ = relative_polarity(info, fn)
         for (fam, kinds), rho in res.items():
-            if rho in (None, 0):
+            if rho in (None, 0) or fam not in families:
                 continue
             seen.setdefault(fam, []).append((name + (f" [{kinds}-tagged terms]" if kinds else ""), rho, fn))
     n = 0
@@ -370,7 +398,7 @@ def check_polarity(rep, rule, ci, methods, rel=None):
         for name, rho, fn in lst:
             n += 1
             C = f"{rel}:{ci.qual}.{name.split(' ')[0]}"
-            label = {"P": "point/translational", "R": "rotational"}[fam]
+            label = {"P": "point/translational", "R": "rotational", "B": "basis-derivative"}[fam]
             if rho == ref:
                 rep.ok(rule, C, f"{label} terms of body 2 enter with relative sign {rho:+d} to those of body 1 (as in `{ref_name}`)")
             else:
@@ -433,3 +461,53 @@ def signed_calls(expr, defs=None, sign=1):
 
     rec(expr, sign)
     return out
+
+
+# ---------------------------------------------------------------------------------------------------------------------
+# row-group polarity (frozen reference)
+# ---------------------------------------------------------------------------------------------------------------------
+def rowgroup_polarity(info, fn):
+    """{(row text, family, tag kind): rho}: like relative_polarity, but per block row of the result.  The body-1 block and the
+    body-2 block of one row are written by different statements (`X[row, :nq1] = ...`, `X[row, nq1:] = ...`); statements are
+    grouped by the text of the row subscript, so translation rows and orientation rows of one routine are judged separately."""
+    occ = occurrences(info, fn)
+    groups = {}
+    for (f, b, sg, st, nm) in occ:
+        tg = st.targets[0] if isinstance(st, ast.Assign) else getattr(st, "target", None)
+        if not isinstance(tg, ast.Subscript):
+            continue
+        sl = tg.slice
+        row = norm_src(sl.elts[0]) if isinstance(sl, ast.Tuple) and sl.elts else norm_src(sl)
+        kinds = "".join(sorted({k for (k, _) in name_tags(nm)}))
+        groups.setdefault((row, f, kinds), {1: set(), 2: set()})[b].add(sg)
+    res = {}
+    for key, s in groups.items():
+        if len(s[1]) == 1 and len(s[2]) == 1 and 0 not in s[1] | s[2]:
+            res[key] = list(s[2])[0] * list(s[1])[0]
+    return res
+
+
+def check_rowgroup_polarity(rep, rule, ci, methods, reference, rel=None):
+    """Compare the determinate row-group polarities with the table frozen when the instances were confirmed (by hand, from the
+    formulas) on the pinned tree.  A row group that is no longer determinate or no longer exists is not compared."""
+    rel = rel or ci.rel
+    n = 0
+    for name in methods:
+        fn = ci.methods.get(name)
+        if fn is None:
+            continue
+        res = rowgroup_polarity(FnInfo(fn), fn)
+        for (row, fam, kinds), rho in sorted(res.items()):
+            want = reference.get((ci.qual, name, row, fam, kinds))
+            if want is None:
+                continue
+            n += 1
+            C = f"{rel}:{ci.qual}.{name}"
+            label = {"P": "point/translational", "R": "rotational", "B": "basis-derivative"}[fam]
+            if rho == want:
+                rep.ok(rule, C, f"rows [{row}]: {label} {kinds or 'primal'} terms of body 2 : body 1 have relative sign {rho:+d}")
+            else:
+                rep.bad(rule, C, f"rows [{row}]: {label} polarity {rho:+d}", f"in the rows `[{row}]` of `{name}` the {label} terms of body 2 enter with relative sign {rho:+d} "
+                        f"to those of body 1; the derivative of the relative quantity requires {want:+d} (after writing cross products in canonical argument order): "
+                        "one of the two blocks has the wrong sign", f"{rel}:{fn.lineno}")
+    return n
